@@ -36,6 +36,15 @@ def evaluate(pid: str, tier: str = "quick", root: str | None = None):
         errors.append(f"internal error: {type(e).__name__}: {e}")
         if os.environ.get("SA_DEBUG"):
             traceback.print_exc(file=sys.stderr)
+    if ctx is not None:
+        try:
+            from .shapes import STATS
+
+            for k, v in STATS.items():
+                if v:
+                    ctx.stats["shape_interpreter." + k] = v
+        except Exception:
+            pass
     if spec is not None and not errors:
         # floors are counted on the domain a rule quantifies over: every site the rule matched,
         # whether it could decide it or not (an undecidable site is listed as unresolved)
